@@ -122,12 +122,20 @@ class KaniEngine:
     # ---- counterexample extraction (single harness, concrete playback)
     def counterexample(self, h, log, want_desc=None):
         info = self._prep()
+        cache = self.__dict__.setdefault("_playback", {})
+        if h["name"] in cache:
+            return self._pick(cache[h["name"]], want_desc)
         cmd = self.base_cmd() + ["-Z", "concrete-playback", "--concrete-playback=print", "--harness", h["name"], "--exact"]
         # --exact needs the full path
         cmd[-2] = self.modpath_of(h["file"]) + "::" + h["name"]
         log(f"[{self.name}] extracting counterexample for {h['name']}")
         cmd += ["--harness-timeout", f"{min(h['timeout'], 300)}s"]
         rc, out, _ = sh(cmd, cwd=info["crate_dir"], timeout=min(h["timeout"], 300) + 240)
+        cache[h["name"]] = out
+        return self._pick(out, want_desc)
+
+    @staticmethod
+    def _pick(out, want_desc):
         tests = []
         for tm in re.finditer(r"/// Test generated for harness.*?\n///\s*\n/// Check for `([a-z_]+)`: (.*?)\n(.*?)\n}", out, re.S):
             cat, desc, body = tm.group(1), tm.group(2).strip(), tm.group(3)
@@ -149,6 +157,9 @@ class KaniEngine:
                  "pub fn run(name: &str) -> bool {", "  match name {"]
         for h in harnesses:
             mp = self.modpath_of(h["file"])
+            parts = mp.split("::")
+            if len(parts) > 2:  # private nested module: reached through the parent's re-export (tools/overlay.py)
+                mp = "::".join(parts[:-2]) + "::verif_contracts_" + parts[-2]
             lines.append(f'    "{h["name"]}" => crate::{mp}::{h["name"]}(),')
         lines += ["    _ => return false,", "  }", "  true", "}", ""]
         return "\n".join(lines)
